@@ -848,4 +848,8 @@ def run(ctx):
     rule_no_output(ctx, rep)
     rule_literal_fallback(ctx, rep)
     rule_def_value(ctx, rep)
+    # what the definition scanner is given ends at the first blank line, spaces-only lines included, and everything it
+    # does not consume is handed back: otherwise text after a definition is glued into it (shared with C03 / C05)
+    from . import c03
+    c03.rule_def_account(ctx, rep)
     rep.assume('call graph over-approximates dynamic dispatch by method name; sound for unreachability claims')
